@@ -19,6 +19,10 @@ type DiffOpt struct {
 	NoNative  bool // self-consistency only (variants must agree with each other)
 	KeepDir   bool
 	Quiet     bool // do not record violations; the caller inspects the result
+	// NativeFiles, when set, is the file set given to the reference toolchain instead of the
+	// program's own (e.g. the same package with files renamed so that the reference presents
+	// them in the order the observed compiler uses).
+	NativeFiles map[string]string
 }
 
 // DiffResult is what the monitor saw.
@@ -66,7 +70,13 @@ func (c *Ctx) DiffProgram(p *Program, o DiffOpt) DiffResult {
 	// reference side first: a program the reference rejects is a generator bug → inconclusive.
 	var ref Trace
 	if !o.NoNative {
-		bin, br := c.BuildNative(dir, NativeOpt{})
+		ndir := dir
+		if o.NativeFiles != nil {
+			ndir = c.Dir("native")
+			WriteFiles(ndir, o.NativeFiles)
+			defer os.RemoveAll(ndir)
+		}
+		bin, br := c.BuildNative(ndir, NativeOpt{})
 		if br.Exit != 0 || br.TimedOut {
 			c.Inconclusive("reference-rejects-program")
 			if os.Getenv("VERIF_DEBUG") != "" {
@@ -93,7 +103,7 @@ func (c *Ctx) DiffProgram(p *Program, o DiffOpt) DiffResult {
 			return res
 		}
 		if o.SecondRef {
-			bin2, br2 := c.BuildNative(dir, NativeOpt{Go: "go1.26.8", Out: "native2.bin"})
+			bin2, br2 := c.BuildNative(ndir, NativeOpt{Go: "go1.26.8", Out: "native2.bin"})
 			if br2.Exit == 0 {
 				r2 := NormNative(c.RunNative(bin2, o.NativeEnv, 0))
 				os.Remove(bin2)
